@@ -118,6 +118,23 @@ class Inline:
                     parts.append((q + w + q, '<%s>%s</%s>' % (tag, esc(w), tag)))
                     self.kinds.add('quote-in-caption')
                     continue
+            if rng.random() < 0.3:
+                # a construct of lower priority inside the caption: it is rendered when the caption is (a nested render
+                # inside the rendering of the enclosing replacement), always followed by a word
+                u = rng.choice([x for x in URLWORDS if x.startswith('http')])
+                w = plain(rng, 1, 1)
+                kind = rng.randrange(4 if forbid != '>' else 3)
+                if kind == 0:
+                    parts.append((u + ' ' + w, '<a href="%s">%s</a> %s' % (esc_attr(u), esc_attr(u), esc(w))))
+                elif kind == 1:
+                    e = rng.choice(['&amp;', '&copy;', '&#169;'])
+                    parts.append((e + ' ' + w, e + ' ' + esc(w)))
+                elif kind == 2:
+                    parts.append(('snake_case ' + w, 'snake_case ' + esc(w)))
+                else:
+                    parts.append(('<%s> %s' % (u, w), '<a href="%s">%s</a> %s' % (esc_attr(u), esc_attr(u), esc(w))))
+                self.kinds.add('replacement-in-caption')
+                continue
             parts.append(self._pair(plain(rng, 1, 2)))
         return ' '.join(p[0] for p in parts), ' '.join(p[1] for p in parts)
 
@@ -316,7 +333,16 @@ class C09(Prop):
                 ind = rng.choice(['  ', '    ', '\t'])
                 src = head + '\n'.join(ind + l for l in lines)
                 exp = '<pre><code>' + esc('\n'.join(lines)) + '</code></pre>'
-            yield {'src': src, 'expected': exp, 'safeMode': mode, 'kind': kind}
+            loose = False
+            if kind != 'inline' and not (mode & 4) and rng.random() < 0.25:
+                # block options that an earlier block consumed - a rendered one, a skipped one, a comment - are gone when the
+                # code region starts
+                pre, pexp = rng.choice([('.+spans\n/*\nc\n*/\n\n', ''), ('.+macros +spans +skip\n..\nskipped\n..\n\n', ''),
+                                        ('.+spans +macros\npara consumes\n\n', '<p>para consumes</p>'),
+                                        ('.+spans\n/*\nc\n*/\n\n# Head\n\n- item\n\n\n', '<h1>Head</h1><ul><li>item</li></ul>'),
+                                        ('.+macros +spans\n``\nfirst\n``\n\n', '<pre><code>first</code></pre>')])
+                src, exp, loose = pre + src, pexp + exp, True
+            yield {'src': src, 'expected': exp, 'safeMode': mode, 'kind': kind, 'loose': loose}
 
     def execute(self, case, ctx, res):
         st = {'src': case['src'], 'safeMode': case['safeMode'], 'reset': True, 'callback': True}
@@ -327,7 +353,9 @@ class C09(Prop):
             return
         res.oracle_checks += 1
         res.count(case['kind'])
-        if a[1] != case['expected']:
+        if case.get('loose'):
+            res.count('after_consumed_options')
+        if (a[1].replace('\n', '') != case['expected'].replace('\n', '')) if case.get('loose') else (a[1] != case['expected']):
             res.violation('markup was interpreted inside a %s code region' % case['kind'], case, {'got': a[1], 'expected': case['expected']})
             return
         if re.search(r'[<>&*_`{\[]', case['src']):
